@@ -58,6 +58,7 @@ func (g *Group) Go(f func() error) {
 		x.Go("errgroup", func() {
 			defer func() { g.n-- }()
 			err := f()
+			x.Tail()
 			if err != nil {
 				// errOnce.Do of the real Group: a synchronisation visible to the scheduler (which of
 				// several failing threads records its error is decided here)
